@@ -37,7 +37,8 @@ def cases(draw, op="read", invalid=False, many=False, size_bias=None):
         reqs = draw(Q.read_requests(p, max_size=40 if many else 12))
     else:
         reqs = draw(Q.write_requests(p, max_size=30 if many else 8))
-    case = {"pd": pd, "seeds": seeds, "cfg": cfg, "op": op, "reqs": reqs}
+    case = {"pd": pd, "seeds": seeds, "cfg": cfg, "op": op, "reqs": reqs, "double_open": draw(st.integers(0, 5)) == 0,
+            "entropy": draw(st.sampled_from(["os", "os", "os", "os", "min", "max"]))}
     if invalid:
         out = []
         forced = []
